@@ -91,6 +91,9 @@ def impl(case):
     parts = []
     for op in d["ops"]:
         o = U.apply_op(nodes, op)
+        if not U.healthy(nodes):
+            parts.append("corrupt")
+            return " ; ".join(parts)
         parts.append(o + " " + U.show_snap(U.snap(nodes)) + " | " + U.show_paths(nodes))
     return " ; ".join(parts) + " ;; " + U.show_lookups(nodes)
 
@@ -103,6 +106,8 @@ def oracle(case):
     for i, op in enumerate(d["ops"]):
         o = U.apply_op(nodes, op)
         after = U.snap(nodes)
+        if not U.healthy(nodes):
+            return [f"after op {i} {U.fmt_op(op)}: the links no longer form a forest"]
         msgs += [f"after op {i} {U.fmt_op(op)}: {m}" for m in U.path_errors(nodes, d["names"])]
         msgs += [f"op {i}: {m}" for m in U.dup_refusal_errors(before, op, o, after, d["names"])]
         if op[0] == "Z" and o == "ok":
@@ -112,6 +117,8 @@ def oracle(case):
         before = after
         if msgs:
             return msgs
+        if not U.healthy(nodes):
+            return [f"after op {i} {U.fmt_op(op)}: the links no longer form a forest"]
     return msgs + U.lookup_errors(nodes)
 
 
